@@ -14,6 +14,7 @@ use serde::{Deserialize, Serialize};
 use serde_json::json;
 use std::collections::BTreeMap;
 use wax::walk::WalkBehavior;
+use wax::Program;
 
 pub struct C13;
 
@@ -98,7 +99,7 @@ impl Property for C13 {
         384
     }
     fn required_counters(&self) -> Vec<&'static str> {
-        vec!["runs", "glob_component_discard_required", "read_target_runs", "tree_verdict_on_followed_link", "tree_verdict_on_link", "tree_discard_with_descendants", "two_tree_verdicts_same_directory", "tree_verdict_on_file", "tripwires_armed", "discard_on_walk_root", "file_verdict_on_directory"]
+        vec!["runs", "tree_discard_by_negation", "tree_discard_demanded_by_own_reading", "glob_component_discard_required", "read_target_runs", "tree_verdict_on_followed_link", "tree_verdict_on_link", "tree_discard_with_descendants", "two_tree_verdicts_same_directory", "tree_verdict_on_file", "tripwires_armed", "discard_on_walk_root", "file_verdict_on_directory"]
     }
     fn decode(&self, t: &mut Tape) -> Case {
         let tree = gen_tree(t, &TreeCfg { links: true, ..TreeCfg::default() });
@@ -153,7 +154,7 @@ impl Property for C13 {
         out
     }
     fn check(&self, case: &Case, st: &mut Stats) -> CheckResult {
-        let layers_rt = match guard(|| prepare_layers(&case.layers)) {
+        let layers_rt = match guard(|| prepare_layers(&case.layers, true)) {
             Ok(Ok(l)) => l,
             Ok(Err(_)) => {
                 st.count("layer_not_built");
@@ -324,6 +325,12 @@ impl Property for C13 {
         }
         if m.double_tree > 0 {
             st.count("two_tree_verdicts_same_directory");
+        }
+        if layers_rt.iter().any(|l| matches!(l.layer, Layer::Not(_) | Layer::NotAny(_)) && m.fed.iter().any(|(r, d)| *d && layer_verdict(l, r) == Verdict::Tree)) {
+            st.count("tree_discard_by_negation");
+        }
+        if layers_rt.iter().any(|l| m.fed.iter().any(|(r, d)| *d && l.exhaustive_alternatives.iter().any(|g| g.is_match(r.as_str())))) {
+            st.count("tree_discard_demanded_by_own_reading");
         }
         if m.tree_on_file > 0 {
             st.count("tree_verdict_on_file");
